@@ -21,6 +21,7 @@ class World:
         self.supply = {}           # denom -> term
         self.smart = {}            # contract address (python str) -> handler(it, msg, call) -> Result value
         self.smart_default = None  # handler(it, addr Str, msg, call)
+        self.smart_table = []      # [(addr Str|str, query value, response value)] declarative answers (also replayed natively)
         self.bank_default = None   # fn(it, addr Str, denom Str) -> term
         self.writes = []           # log of storage writes (namespace, op)
         self.hooks = {}            # cw_controllers::Hooks namespace -> [addr strings]
@@ -584,6 +585,11 @@ def smart_query(it, addr, msg, c):
     msg = deref(msg)
     for k, h in w.smart.items():
         if it.ctx.branch(struct_eq(it, addr, Str(k)), 'smart'): return h(it, msg, c)
+    for a, q, resp in w.smart_table:
+        a = S(a)
+        if it.ctx.branch(zand(struct_eq(it, addr, a), struct_eq(it, msg, q)), 'smart_table'):
+            if isinstance(resp, Opaque) and resp.tag == 'query_error': return ERR(Opaque('StdError::GenericErr', Str('Querier contract error')))
+            return OK(dup(resp))
     if isinstance(msg, Enum) and msg.name == 'cw20::Cw20QueryMsg':
         if msg.variant == 'Balance':
             return OK(Agg('cw20::BalanceResponse', [U128(w.cw20_balance(it, addr, S(msg.fields[0])))]))
